@@ -93,4 +93,121 @@ def rule_cache(ctx):
     )
 
 
-RULES = [rule_cache]
+SIGN_DESTROYING = {"abs", "np.abs", "np.absolute", "np.fabs", "numpy.abs", "np.sort", "sorted", "np.unique"}
+
+
+def _flow_names(fn):
+    """name -> list of value expressions bound to it (Assign / AugAssign, subscript targets count for their base; for-loop targets for the iterable)."""
+    import ast
+
+    from ..model import unparse
+
+    defs = {}
+    for n in ast.walk(fn.node):
+        if isinstance(n, (ast.Assign, ast.AugAssign, ast.AnnAssign)) and n.value is not None:
+            tgs = n.targets if isinstance(n, ast.Assign) else [n.target]
+            for t in tgs:
+                for e in (t.elts if isinstance(t, (ast.Tuple, ast.List)) else [t]):
+                    b = e
+                    while isinstance(b, ast.Subscript):
+                        b = b.value
+                    if isinstance(b, (ast.Name, ast.Attribute)):
+                        defs.setdefault(unparse(b), []).append(n.value)
+    return defs
+
+
+def rule_rot(ctx) -> RuleResult:
+    import ast
+
+    from ..model import unparse
+
+    res = RuleResult(
+        "C17.ROT",
+        "C17",
+        "(a) in every centroids getter that rotates, the operand of each rotation product (np.dot(rot, X) / M @ X) carries "
+        "no origin term and the cached result does: cells are rotated about the origin, not about (0,0,0); (b) the cell "
+        "sizes feeding BlockModel centroids are signed differences of the delimiters: nothing on the flow from the "
+        "delimiters to the cache discards the sign or the order (abs / sort / unique)",
+        floor=6,
+    )
+    p = ctx.p
+    for K in p.subclasses(p.cls("GridObject")):
+        pr = K.props.get("centroids")
+        if pr is None or pr.getter is None or pr.getter.cls is not K:
+            continue
+        g = pr.getter
+        sn = g.self_name or "self"
+        defs = _flow_names(g)
+
+        def tainted(e, what, seen=()):
+            """does expression e (transitively through local names) read self.<what>?"""
+            for x in ast.walk(e):
+                if isinstance(x, ast.Attribute) and unparse(x) == f"{sn}.{what}":
+                    return True
+                if isinstance(x, (ast.Name, ast.Attribute)):
+                    nm = unparse(x)
+                    if nm in defs and nm not in seen:
+                        if any(tainted(d, what, seen + (nm,)) for d in defs[nm]):
+                            return True
+            return False
+
+        def is_rot_matrix(e):
+            return tainted(e, "rotation") or tainted(e, "dip")
+
+        products = []
+        for n in ast.walk(g.node):
+            if isinstance(n, ast.BinOp) and isinstance(n.op, ast.MatMult) and is_rot_matrix(n.left):
+                products.append((n, n.right))
+            elif isinstance(n, ast.Call) and unparse(n.func) in ("np.dot", "np.matmul") and len(n.args) == 2 and is_rot_matrix(n.args[0]):
+                products.append((n, n.args[1]))
+        if not products:
+            continue
+        for prod, operand in products:
+            ok = not tainted(operand, "origin")
+            res.inst(f"{K.name}.centroids:{prod.lineno} rotation operand `{unparse(operand)[:30]}` has no origin term", nontrivial=True, ok=ok)
+            if not ok:
+                res.find(K.name, "centroids", f"the origin is added before the rotation ({unparse(prod)[:50]})", f"{g.module.relpath}:{prod.lineno}",
+                         "the origin takes part in the rotation: cells are rotated about (0,0,0) instead of about the grid origin, wrong for every rotated grid whose origin is not zero")
+        cache_ok = any(tainted(d, "origin") for nm, ds in defs.items() if nm in (f"{sn}._centroids",) for d in ds) or \
+            any(nm == f"{sn}._centroids" and any(tainted(d, "origin") or any(isinstance(x, ast.Name) and tainted(x, "origin") for x in ast.walk(d)) for d in ds) for nm, ds in defs.items())
+        res.inst(f"{K.name}.centroids: the cached array has the origin added", nontrivial=True, ok=cache_ok)
+        if not cache_ok:
+            res.find(K.name, "centroids", "the origin is never added to the centroids", g.where, "cell centres are reported in local coordinates")
+    # (b) signed cell sizes
+    bm = p.cls("BlockModel")
+    for name in ("u_cells", "v_cells", "z_cells", "centroids"):
+        pr = bm.props.get(name)
+        if pr is None or pr.getter is None:
+            raise AnalysisError(f"anchor BlockModel.{name} not found")
+        g = pr.getter
+        defs = _flow_names(g)
+        flows = []  # expressions reaching the return value / the cache
+
+        def collect(e, seen):
+            flows.append(e)
+            for x in ast.walk(e):
+                if isinstance(x, (ast.Name, ast.Attribute)):
+                    nm = unparse(x)
+                    if nm in defs and nm not in seen:
+                        seen.add(nm)
+                        for d in defs[nm]:
+                            collect(d, seen)
+
+        seen = set()
+        for r in ast.walk(g.node):
+            if isinstance(r, ast.Return) and r.value is not None:
+                collect(r.value, seen)
+        for nm, ds in defs.items():
+            if nm.endswith("._centroids"):
+                for d in ds:
+                    collect(d, seen)
+        bad = [c for e in flows for c in ast.walk(e) if isinstance(c, ast.Call) and unparse(c.func) in SIGN_DESTROYING]
+        res.inst(f"BlockModel.{name}: no abs / sort / unique on the flow from the delimiters to the result", nontrivial=True, ok=not bad)
+        for c in bad[:1]:
+            res.find("BlockModel", name, f"{unparse(c.func)} on the flow to the result ({unparse(c)[:40]})", f"{g.module.relpath}:{c.lineno}",
+                     "cell sizes must stay the signed differences of consecutive delimiters (a model whose z delimiters decrease has negative cell "
+                     "heights and centres below the origin); discarding the sign or the order mirrors those centres")
+    return res
+
+
+RULES = [rule_cache, rule_rot]
